@@ -55,6 +55,58 @@ Theorem C47_int_inlist_exact :
     eval_inlist (TInt a) x (TInt b) ys = EOk (existsb (Z.eqb x) ys).
 Proof. exact int_inlist_exact. Qed.
 
+(* Decimals (and integer-vs-decimal): WHEN the operands are coerced to a decimal type and no i8
+   overflow happens inside the coercion/cast arithmetic, a comparison that evaluates without error
+   returns the comparison of the two rationals x/10^sa and y/10^sb -- exact or an error, never a
+   wrong answer.  (ty_ok: integer type, or decimal with 1 <= p <= max, 0 <= s <= p;
+   val_ok: in range / |unscaled| <= 10^p - 1; spec_cmp compares x*10^sb with y*10^sa.) *)
+Theorem C47_decimal_cmp_exact_or_error :
+  forall (ta tb : nty) (x y : Z) (op : cmpop) (t : nty) (r : bool),
+    ty_ok ta = true -> ty_ok tb = true -> val_ok ta x = true -> val_ok tb y = true ->
+    comparison_coercion ta tb = Some t -> is_decimal t = true ->
+    eval_ovf ta tb = false ->
+    eval_cmp op ta x tb y = EOk r ->
+    r = spec_cmp op ta x tb y.
+Proof. exact dec_cmp_exact_or_error. Qed.
+
+(* ... and that overflow cannot happen unless an operand is a Decimal256 *)
+Theorem C47_no_overflow_below_decimal256 :
+  forall ta tb : nty,
+    ty_ok ta = true -> ty_ok tb = true -> not256 ta = true -> not256 tb = true ->
+    eval_ovf ta tb = false.
+Proof. exact no_ovf_below_256. Qed.
+
+(* REFUTED (1): the two side conditions above are necessary -- the faithful model gives WRONG
+   answers when a decimal is compared with an integer type that its variant is too narrow for
+   (Decimal32 vs Int32/Int64/UInt32/UInt64, Decimal64 vs Int64/UInt64): decimal_coercion returns
+   None, numerical_coercion's integer arm matches, the decimal operand is cast to the integer type
+   (truncation).  Witness: Decimal32(5,2) 1.50 = Int32 1 evaluates to true. *)
+Theorem C47_decimal_vs_integer_refuted :
+  exists (ta tb : nty) (x y : Z) (op : cmpop) (r : bool),
+    ty_ok ta = true /\ ty_ok tb = true /\ val_ok ta x = true /\ val_ok tb y = true /\
+    eval_ovf ta tb = false /\
+    comparison_coercion ta tb = Some (TInt I32) /\
+    eval_cmp op ta x tb y = EOk r /\ r <> spec_cmp op ta x tb y.
+Proof.
+  exists (TDec D32 5 2), (TInt I32), 150, 1, OEq, true. vm_compute. repeat split; discriminate.
+Qed.
+
+(* REFUTED (2), wrapping (release) arithmetic only: Decimal256(76,0) vs Decimal256(76,s>=52).
+   arrow-cast's make_upscaler computes `(input_precision as i8) + delta_scale` = 76+76 in i8, which
+   wraps negative, so the cast is taken to be infallible and multiplies with mul_wrapping and no
+   precision check.  Witness: 6 < 0.5 evaluates to true.  (An overflow-checks build panics instead:
+   eval_ovf = true.) *)
+Theorem C47_decimal256_wrap_refuted :
+  exists (ta tb : nty) (x y : Z) (op : cmpop) (r : bool),
+    ty_ok ta = true /\ ty_ok tb = true /\ val_ok ta x = true /\ val_ok tb y = true /\
+    eval_ovf ta tb = true /\
+    comparison_coercion ta tb = Some (TDec D256 76 76) /\
+    eval_cmp op ta x tb y = EOk r /\ r <> spec_cmp op ta x tb y.
+Proof.
+  exists (TDec D256 76 0), (TDec D256 76 76), 6, (5 * 10 ^ 75), OLt, true.
+  vm_compute. repeat split; discriminate.
+Qed.
+
 (* non-vacuity: the hypotheses are satisfiable on the interesting instances *)
 Example C47_nonvacuous :
   in_irange U64 18446744073709551615 = true /\ in_irange I64 (-1) = true /\
@@ -62,5 +114,10 @@ Example C47_nonvacuous :
   eval_cmp OLt (TInt U64) 18446744073709551615 (TInt I64) (-1) = EOk false /\
   eval_cmp OGt (TInt I64) (-1) (TInt U64) 18446744073709551615 = EOk false /\
   eval_cmp OEq (TInt I8) (-1) (TInt U8) 255 = EOk false /\
-  eval_cmp OLe (TInt U32) 4294967295 (TInt I32) (-2147483648) = EOk false.
+  eval_cmp OLe (TInt U32) 4294967295 (TInt I32) (-2147483648) = EOk false /\
+  (* decimal theorem: hypotheses hold on a non-trivial instance, 1.50 (Decimal128(10,2)) vs Int64 1 *)
+  ty_ok (TDec D128 10 2) = true /\ val_ok (TDec D128 10 2) 150 = true /\
+  comparison_coercion (TDec D128 10 2) (TInt I64) = Some (TDec D128 22 2) /\
+  eval_ovf (TDec D128 10 2) (TInt I64) = false /\
+  eval_cmp OGt (TDec D128 10 2) 150 (TInt I64) 1 = EOk true.
 Proof. vm_compute. repeat split. Qed.
